@@ -48,25 +48,25 @@ package keeper
 
 // C09: next base fee = max(EIP-1559(b, used, limit), trunc(minGasPrice)); never negative; never fails.
 //@ func (k Keeper) CalculateBaseFee(ctx sdk.Context) sdkmath.Int
-//@   requires !fmBaseFeeNil[layer(ctx)] && fmBaseFee[layer(ctx)] >= 0 && fmMinGasPrice[layer(ctx)] >= 0
+//@   requires !fmBaseFeeNil[layer(ctx)] && fmBaseFee[layer(ctx)] >= 0 && fmBaseFee[layer(ctx)] < pow2(256) && fmMinGasPrice[layer(ctx)] >= 0
 //@   requires ctx.BlockGasMeter() != nil && k.evmKeeper != nil
-//@   requires (ctx.ConsensusParams().Block != nil ==> ctx.ConsensusParams().Block.MaxGas >= -1) && k.evmKeeper != nil && fmMinGasPrice[layer(ctx)] < pow2(256) * 1000000000000000000
+//@   requires (ctx.ConsensusParams().Block != nil ==> ctx.ConsensusParams().Block.MaxGas >= -1) && k.evmKeeper != nil && fmMinGasPrice[layer(ctx)] < pow2(315) && londonActive(k.evmKeeper.GetChainConfig(ctx), ctx.BlockHeight())
 //@   modifies nothing
-//@   ensures[C09.eip1559] londonActive(k.evmKeeper.GetChainConfig(ctx), ctx.BlockHeight()) ==> iv(result) == max(eip1559next(fmBaseFee[layer(ctx)], gmToLimit[payload(ctx.BlockGasMeter())], fmGasLimit(ctx.ConsensusParams().Block != nil, ctx.ConsensusParams().Block.MaxGas)), fmMinGasPrice[layer(ctx)] / 1000000000000000000)
+//@   ensures[C09.eip1559] iv(result) == max(eip1559next(fmBaseFee[layer(ctx)], gmToLimit[payload(ctx.BlockGasMeter())], fmGasLimit(ctx.ConsensusParams().Block != nil, ctx.ConsensusParams().Block.MaxGas)), fmMinGasPrice[layer(ctx)] / 1000000000000000000)
 //@   ensures[C09.floor] !inil(result) && iv(result) >= 0 && iv(result) >= fmMinGasPrice[layer(ctx)] / 1000000000000000000
 //@   panics[C09.never_fails,C20.never_fails] never
 
 //@ func (k Keeper) updateBaseFeeForNextBlock(ctx sdk.Context)
-//@   requires !fmBaseFeeNil[layer(ctx)] && fmBaseFee[layer(ctx)] >= 0 && fmMinGasPrice[layer(ctx)] >= 0
-//@   requires (ctx.ConsensusParams().Block != nil ==> ctx.ConsensusParams().Block.MaxGas >= -1) && k.evmKeeper != nil && fmMinGasPrice[layer(ctx)] < pow2(256) * 1000000000000000000
+//@   requires !fmBaseFeeNil[layer(ctx)] && fmBaseFee[layer(ctx)] >= 0 && fmBaseFee[layer(ctx)] < pow2(256) && fmMinGasPrice[layer(ctx)] >= 0
+//@   requires (ctx.ConsensusParams().Block != nil ==> ctx.ConsensusParams().Block.MaxGas >= -1) && k.evmKeeper != nil && fmMinGasPrice[layer(ctx)] < pow2(315) && londonActive(k.evmKeeper.GetChainConfig(ctx), ctx.BlockHeight())
 //@   modifies fmBaseFee[layer(ctx)], fmBaseFeeNil[layer(ctx)], fmMinGasPrice[layer(ctx)], evlog[payload(ctx.EventManager())]
-//@   ensures[C09.stored_next] (ctx.BlockGasMeter() != nil && londonActive(k.evmKeeper.GetChainConfig(ctx), ctx.BlockHeight())) ==> fmBaseFee[layer(ctx)] == max(eip1559next(old(fmBaseFee[layer(ctx)]), gmToLimit[payload(ctx.BlockGasMeter())], fmGasLimit(ctx.ConsensusParams().Block != nil, ctx.ConsensusParams().Block.MaxGas)), old(fmMinGasPrice[layer(ctx)]) / 1000000000000000000)
+//@   ensures[C09.stored_next] ctx.BlockGasMeter() != nil ==> fmBaseFee[layer(ctx)] == max(eip1559next(old(fmBaseFee[layer(ctx)]), gmToLimit[payload(ctx.BlockGasMeter())], fmGasLimit(ctx.ConsensusParams().Block != nil, ctx.ConsensusParams().Block.MaxGas)), old(fmMinGasPrice[layer(ctx)]) / 1000000000000000000)
 //@   ensures[C09.stays_valid] !fmBaseFeeNil[layer(ctx)] && fmBaseFee[layer(ctx)] >= 0 && fmMinGasPrice[layer(ctx)] == old(fmMinGasPrice[layer(ctx)])
 //@   panics[C09.end_block_never_fails,C20.end_block_never_fails] never
 
 //@ func (k Keeper) EndBlock(ctx sdk.Context)
-//@   requires !fmBaseFeeNil[layer(ctx)] && fmBaseFee[layer(ctx)] >= 0 && fmMinGasPrice[layer(ctx)] >= 0
-//@   requires (ctx.ConsensusParams().Block != nil ==> ctx.ConsensusParams().Block.MaxGas >= -1) && k.evmKeeper != nil && fmMinGasPrice[layer(ctx)] < pow2(256) * 1000000000000000000
+//@   requires !fmBaseFeeNil[layer(ctx)] && fmBaseFee[layer(ctx)] >= 0 && fmBaseFee[layer(ctx)] < pow2(256) && fmMinGasPrice[layer(ctx)] >= 0
+//@   requires (ctx.ConsensusParams().Block != nil ==> ctx.ConsensusParams().Block.MaxGas >= -1) && k.evmKeeper != nil && fmMinGasPrice[layer(ctx)] < pow2(315) && londonActive(k.evmKeeper.GetChainConfig(ctx), ctx.BlockHeight())
 //@   modifies fmBaseFee[layer(ctx)], fmBaseFeeNil[layer(ctx)], fmMinGasPrice[layer(ctx)], evlog[payload(ctx.EventManager())]
 //@   ensures[C09.stays_valid] !fmBaseFeeNil[layer(ctx)] && fmBaseFee[layer(ctx)] >= 0
 //@   panics[C09.end_block_never_fails,C20.end_block_never_fails] never
